@@ -28,6 +28,29 @@ def run(ctx):
             if r['outs'][-1][0] != 'ok':
                 ctx.violation('valid-specification-with-%d-logical-files-refused' % n_lf,
                               {'program': apistream.strip_private(prog), 'impl': list(r['outs'][-1])})
+    # the number of records generate_logical_records ANNOUNCES (what the progress bar is told) is the number it yields
+    # (C18_records_per_logical_file: header + sets + no-format calls + rows, per logical file)
+    import numpy as np
+    from dliswriter import DLISFile
+    for n_lf in range(1, 8):
+        for extra in (0, 3):
+            df = DLISFile()
+            for li in range(n_lf):
+                lf = df.add_logical_file(fh_id='LF-%d' % li)
+                lf.add_origin('O', file_set_number=1, set_name='S%d' % li)
+                ch = lf.add_channel('CH', data=np.arange(float(2 + li % 3)), set_name='S%d' % li)
+                lf.add_frame('FR', channels=[ch], set_name='S%d' % li)
+                for a in range(extra):
+                    lf.add_axis('AX%d' % a, set_name='S%d' % li)
+                if li % 2:
+                    nf = lf.add_no_format('NF', set_name='S%d' % li)
+                    lf.add_no_format_frame_data(nf, b'ab')
+            recs = df.generate_logical_records(chunk_size=None)
+            announced, actual = len(recs), sum(1 for _ in recs)
+            ctx.count('K-record-count', key=(n_lf, extra))
+            if announced != actual:
+                ctx.violation('announced-number-of-records-differs-from-the-records-yielded',
+                              {'logical_files': n_lf, 'extra_objects': extra, 'announced': announced, 'yielded': actual})
     rng = ctx.rng('progs')
     n = 60 if ctx.tier == 'quick' else 600
     nsame = 12 if ctx.tier == 'quick' else 120
